@@ -29,7 +29,10 @@ class Rule :
     def add(self, key, value):
         # if key in ('mtype', 'sender', 'interface', 'member', 'path',
         # 'destination'):
-        if key in ('mtype', 'interface', 'member', 'path', 'destination'):
+        if key == '_messageType':
+            # rules name the type ('signal'), messages carry its code
+            self.simple.append((key, _mtypes.get(value, value)))
+        elif key in ('interface', 'member', 'path', 'destination'):
             self.simple.append((key, value))
         else:
             setattr(self, key, value)
@@ -44,20 +47,30 @@ class Rule :
                     return
 
             if hasattr(self, 'path_namespace'):
-                if (
-                    m.path is None
-                    or not m.path.startswith(self.path_namespace)
+                ns = self.path_namespace
+                if m.path is None or not (
+                    m.path == ns
+                    or m.path.startswith(ns.rstrip('/') + '/')
                 ):
                     return
 
-            if hasattr(self, 'args') and m.body is not None:
+            body = m.body if m.body is not None else []
+
+            if hasattr(self, 'args'):
                 for idx, val in self.args:
-                    if idx >= len(m.body) or m.body[idx] != val:
+                    if idx >= len(body) or body[idx] != val:
                         return
 
-            if hasattr(self, 'arg_paths') and m.body is not None:
+            if hasattr(self, 'arg_paths'):
                 for idx, val in self.arg_paths:
-                    if idx >= len(m.body) or not m.body[idx].startswith(val):
+                    if idx >= len(body) or not isinstance(body[idx], str):
+                        return
+                    arg = body[idx]
+                    if not (
+                        arg == val
+                        or (val.endswith('/') and arg.startswith(val))
+                        or (arg.endswith('/') and val.startswith(arg))
+                    ):
                         return
 
             # XXX arg0namespace -- Not quite sure how this one works
